@@ -130,7 +130,18 @@ pub fn generate(run_seed: u64, corpus: &Corpus, sw: &Swarm, i: u64, exhaustive: 
         let (kind, cl) = W5_ENVS[(i % n_env) as usize];
         let client = client_for(cl);
         // last block: ordered pairs of edge-value escapes in a double-quoted scalar, iterate + two loaders
-        // very last block: what follows a dedent
+        // very last block: special scalars as keys and values, iterate and the four loaders
+        let skn = gen::special_key_count() * 5;
+        if i >= exhaustive - skn {
+            let j = i - (exhaustive - skn);
+            let client = match j % 5 {
+                0 => Client::Iterate,
+                n => Client::Loader((n - 1) as u8, if (j / 5) % 3 == 0 { 3 } else { 2 }),
+            };
+            return Case { prop: "C01".into(), gen: "K-special-keys".into(), text: gen::nth_special_key(j / 5), input: InputKind::Str, client, ..Case::default() };
+        }
+        let exhaustive = exhaustive - skn;
+        // before it: what follows a dedent
         let ddn = gen::dedent_count() * 2;
         if i >= exhaustive - ddn {
             let j = i - (exhaustive - ddn);
